@@ -111,6 +111,10 @@ def cases():
             yield ['DW_OP', 62 if a == 8 else 3, v]
     for v in sorted({getattr(dc, k) for k in dir(dc) if k.startswith('DW_CFA_')}):
         yield ['DW_CFA', 62, v]
+    # operations whose operand width follows the DWARF format, in a file that mixes a 32-bit-format and a 64-bit-format unit (either order)
+    for v in (0x9a, 0xa0, 0xf2, 0x03, 0x91):
+        for order in ('32-64', '64-32'):
+            yield ['DW_OP_mixed', 62, [v, order]]
 
 
 AT_FOR = {'DW_LANG': (0x13, 'data2'), 'DW_ATE': (0x3e, 'data1'), 'DW_ACCESS': (0x32, 'data1'), 'DW_VIS': (0x17, 'data1'), 'DW_VIRTUALITY': (0x4c, 'data1'),
@@ -289,6 +293,23 @@ def build(desc):
                        [Die(Abbrev(3, TAG['subprogram'], True, [(AT['name'], F['string'], None), (AT['frame_base'], F['exprloc'], None)]), [b'f', b'\x9c'],
                             [Die(Abbrev(2, TAG['variable'], False, [(AT['location'], F['exprloc'], None)]), [expr]), null()]), null()])
         return _dwarf_image(mk, cls=acls, machine=m), '--debug-dump=info', ['.debug_info']
+    if table == 'DW_OP_mixed':
+        op, order = v
+        small = {'u1': 4, 's1': -2, 'u2': 0x102, 's2': -3, 'u4': 0x10203, 's4': -70000, 'u8': 0x1020304050, 's8': -(1 << 40), 'uleb': 5, 'sleb': -8, 'addr': 0x401000,
+                 'offset': 0x0b, 'block': [1, 2, 3], 'tblock': [9, 8], 'expr': [(0x31, []), (0x91, [-8])], 'wasm': (1, 5)}
+
+        def unit(fmt, code0):
+            p = X.P(True, fmt, 8)
+            expr = X.enc_expr([(op, [small[k] for k in X.OPS[op][1]])], p)
+            dp = DP(True, fmt, 8, 4)
+            return Unit(dp, Die(Abbrev(code0, TAG['compile_unit'], True, [(AT['name'], F['string'], None)]), [b'a%d.c' % fmt],
+                                [Die(Abbrev(code0 + 2, TAG['subprogram'], True, [(AT['name'], F['string'], None), (AT['frame_base'], F['exprloc'], None)]), [b'f', b'\x9c'],
+                                     [Die(Abbrev(code0 + 1, TAG['variable'], False, [(AT['location'], F['exprloc'], None)]), [expr]), null()]), null()]))
+        units = [unit(32, 1), unit(64, 4)] if order == '32-64' else [unit(64, 1), unit(32, 4)]
+        secs = dg.Assembly(units, le=True).assemble()
+        out = {k: secs[k] for k in ('.debug_info', '.debug_abbrev', '.debug_str') if secs.get(k)}
+        data, _ = elfwrap.wrap(out, 64, True, machine=62)
+        return data, '--debug-dump=info', ['.debug_info']
     if table == 'DW_CFA':
         from mcx.props import c06
         dp = DP(True, 32, 8, 4)
